@@ -678,6 +678,8 @@ def idxOf? {α : Type} [DecidableEq α] (l : List α) (x : α) : Option Nat :=
   let j := l.findIdx (fun y => decide (y = x))
   if j < l.length then some j else none
 
+/-- `Format.getElem`: coord → cbits, payload → pbits, elem → cbits + pbits; the rank's declared
+    format ("U"/"C") plays no role, so the case's `format` field is not even parsed -/
 def elemBits (c : CaseIn) (t r ty : String) : Option Nat :=
   match c.fmts.find? (fun f => f.tensor = t ∧ f.rank = r) with
   | none => none
